@@ -4,6 +4,8 @@ import math
 import os
 import tempfile
 
+import re
+_NUMLIKE = re.compile(r"[-+]?(\.?\d[\d_]*)(\.[\d_]*)?([eE][-+]?\d+)?|[-+]?0[xXoObB][0-9a-fA-F_]+|[-+]?\.(inf|Inf|INF|nan|NaN|NAN)|[-+]?(inf|nan)|\d+:\d+(:\d+)*")
 _PLAIN = set("abcdefghijklmnopqrstuvwxyzABCDEFGHIJKLMNOPQRSTUVWXYZ0123456789_")
 
 
@@ -24,6 +26,12 @@ def scalar(v):
         return s
     if s == "inf":
         return "inf"
+    # accelforge treats quoted YAML strings as literals (never evaluated): expressions must
+    # be emitted as plain scalars whenever YAML allows it.
+    if s and s == s.strip() and s[0] not in "[]{}&*!|>%@`'\"#,?" and not s.startswith("- ") \
+            and ": " not in s and " #" not in s and not s.endswith(":") and "\n" not in s \
+            and not _NUMLIKE.fullmatch(s) and not s.startswith(("- ", "? ", ": ")):
+        return s
     return json.dumps(s)
 
 
